@@ -258,6 +258,9 @@ def gen_meta(rng, richness=None):
         meta['text'] = text_v(rng)
     if rng.random() < 0.5:
         meta['tag'] = rng.sample(TAGS, rng.choice([0, 1, 1, 2, 3]))
+        if meta['tag'] and rng.random() < 0.15:
+            # a tag list is a list: the same tag may be listed more than once
+            meta['tag'] = meta['tag'] + [meta['tag'][0]] if rng.random() < 0.5 else [meta['tag'][0]] * 2
     for _ in range(rng.choice([0, 0, 1, 2]) if richness > 1 else 0):
         meta[rng.choice(FLAGS)] = rng.choice([0, 1])
     if richness > 1 and rng.random() < 0.3:
